@@ -40,6 +40,7 @@ type GenCfg struct {
 	WNoise, WStorage, WMem, WCall, WCreate, WExport, WLockup, WSelfdestruct, WLoop, WTerminal int
 	WNest                                                                                     int    // percentage of blocks that are a plain call into another generated contract
 	BigMem                                                                                    bool   // every memory-touching opcode may draw the large boundary sizes (C15b)
+	FailTailPct                                                                               int    // percentage of programs that end in a failing terminal after their blocks (C12b)
 	MemCap                                                                                    uint64 // largest size operand of metered memory operations
 	Excl                                                                                      *Exclusions
 }
@@ -52,6 +53,11 @@ func DefaultCfg() GenCfg {
 // MemCfg is the C15(b) mix: memory-touching operations of every kind with sizes up to 2^24.
 func MemCfg() GenCfg {
 	return GenCfg{MaxBlocks: 6, Depth: 1, WNoise: 1, WStorage: 2, WMem: 14, WCall: 3, WCreate: 2, WExport: 3, WLockup: 1, WSelfdestruct: 0, WLoop: 1, WTerminal: 2, WNest: 8, MemCap: 1 << 24, BigMem: true}
+}
+
+// FailCfg is the C12(b) mix: nested frames that produce effects and then fail.
+func FailCfg() GenCfg {
+	return GenCfg{MaxBlocks: 5, Depth: 2, WNoise: 1, WStorage: 6, WMem: 1, WCall: 4, WCreate: 5, WExport: 4, WLockup: 5, WSelfdestruct: 2, WLoop: 1, WTerminal: 3, WNest: 28, MemCap: 1 << 16, FailTailPct: 35}
 }
 func ExportCfg() GenCfg {
 	return GenCfg{MaxBlocks: 5, Depth: 2, WNoise: 1, WStorage: 1, WMem: 2, WCall: 5, WCreate: 2, WExport: 12, WLockup: 10, WSelfdestruct: 1, WLoop: 1, WTerminal: 1, WNest: 15, MemCap: 1 << 20}
@@ -1112,6 +1118,26 @@ func (g *ProgGen) Program(h *Hints) Program {
 	nb := 1 + g.intn("nblocks", g.Cfg.MaxBlocks)
 	for i := 0; i < nb; i++ {
 		g.block(a, h, g.Cfg.Depth, false)
+	}
+	if g.Cfg.FailTailPct > 0 && g.flip("failtail", g.Cfg.FailTailPct) {
+		switch g.weighted("failkind", 4, 2, 1, 1, 1) {
+		case 0:
+			g.kind("tail:REVERT")
+			a.Push(0).Push(0).Op(vm.REVERT)
+		case 1:
+			g.kind("tail:INVALID")
+			a.Op(vm.OpCode(0xfe))
+		case 2:
+			g.kind("tail:BADJUMP")
+			a.Push(3).Op(vm.JUMP)
+		case 3:
+			g.kind("tail:UNDERFLOW")
+			a.Op(vm.POP, vm.POP, vm.POP, vm.POP, vm.POP)
+		default:
+			g.kind("tail:OOG")
+			// a memory touch no budget can pay for: immediate out-of-gas
+			a.Push(1 << 30).Op(vm.MLOAD)
+		}
 	}
 	if g.flip("rawtail", 3) {
 		// low-weight arbitrary bytes
